@@ -454,6 +454,20 @@ def add_bad_records(text, which=None):
     return "\n".join(lines) + "\n"
 
 
+def dimer_same_id(text, shift=(25.0, 0.0, 0.0)):
+    """The polymer followed by a TER and a translated copy of itself with the SAME chain id
+    and the same residue numbers (numbering starts over after the TER)."""
+    lines = [l for l in text.splitlines() if l.strip() not in ("END",)]
+    poly = [l for l in lines if l.startswith("ATOM  ")]
+    rest = [l for l in lines if _is_atom(l) and not l.startswith("ATOM  ")]
+    out = list(poly) + ["TER"]
+    for l in poly:
+        x, y, z = _xyz(l)
+        out.append(_set_xyz(l, x + shift[0], y + shift[1], z + shift[2]))
+    out += ["TER"] + rest + ["END"]
+    return "\n".join(out) + "\n"
+
+
 def renumber(text, offset):
     """Shift all residue numbers (negative numbers, numbers crossing 9999 -> column overflow
     is avoided by clamping)."""
@@ -541,6 +555,8 @@ def structure_text(cfg):
         text = rename(text, cfg["rename"])
     if cfg.get("chains"):
         text = split_chains(text, cfg["chains"])
+    if cfg.get("dimer_same_id"):
+        text = dimer_same_id(text)
     if cfg.get("renumber"):
         text = renumber(text, cfg["renumber"])
     if cfg.get("water_name"):
